@@ -302,6 +302,7 @@ class Engine:
         self.modules = {}
         self.models = {}
         self.type_models = {}
+        self.generic_indices = []    # index terms at which full reductions are instantiated (set by the harness)
         self.externals = {}          # dotted external name -> assumed contract (python callable)
         self.callee_contracts = {}   # qualified name -> python callable(engine, args, kwargs)
         self.loop_specs = {}         # (qualname, k) -> LoopSpec
